@@ -17,6 +17,7 @@
   to int"); `narrowed_difference_was_wrong` keeps the defect of the pinned tree on record.
 -/
 import StVerif.Lemmas.Compare
+import StVerif.Lemmas.KernelBridge
 
 namespace StVerif.Props.C06
 open StVerif StVerif.Search StVerif.Compare StVerif.Spec.Compare
@@ -255,5 +256,14 @@ example : strCompareN .sensitive [0x61, 0x62] (.str [0x61, 0x63]) 1 = 0 := by de
 /-- the unit-range hypotheses are satisfiable -/
 example : Bytes [0x00, 0x41, 0x80, 0xFF] ∧ UnitsLt (2 ^ Elem.bits .wchar) [0, 0x10FFFF, 0xFFFFFFFF] ∧ UnitsLt (2 ^ 31) [0x10FFFF] := by decide
 example : (2 ^ 31 : Nat) < 2 ^ 64 ∧ ((5 : Nat) : Int) - (3 : Nat) < 2 ^ 31 := by decide
+
+/-! ### tie to the source (tools/gen_kernels.py) -/
+
+/-- `cl_fast_lower` / `cl_fast_upper` as translated from include/st_string_priv.h on every run are the model's case
+    folds on every `char` value (the byte seen as the signed `char` the C++ receives) -/
+theorem case_fold_is_model : ∀ b, b < 256 →
+    StVerif.Generated.Kernels.cl_fast_lower (KernelBridge.toChar b) = .ok (KernelBridge.toChar (StVerif.Search.lower b)) ∧
+    StVerif.Generated.Kernels.cl_fast_upper (KernelBridge.toChar b) = .ok (KernelBridge.toChar (StVerif.Search.upper b)) :=
+  fun b hb => ⟨KernelBridge.cl_fast_lower_eq b hb, KernelBridge.cl_fast_upper_eq b hb⟩
 
 end StVerif.Props.C06
